@@ -11,7 +11,8 @@ EVIDENCE = dict(
          "exactly the specified types are registered; a second trace is taken after the classes were used (every unit, lenient "
          "out-of-range values, fixtures, type names in other spellings, MetaModules mirroring controllers, 300 embedded positions, "
          "128 stored mappings). Each compared field is one evaluation; a case is "
-         "non-trivial when the field is not a default/empty value.",
+         "non-trivial when the field is not a default/empty value."
+         " The use phase also loads newer-version files: enumeration values the specification does not list, more stored controller values than the type has controllers.",
     explanation="a static, exhaustive comparison (43 types x all controller and option fields) carried out by TLC "
                 "over the spec's data; programs = generated classes judged against their YAML source")
 
